@@ -21,7 +21,7 @@ RULE = ('two-sided specs (HR/SM-shaped and SPA; ties on both sides; zero-capacit
         '"stability_correct:" line must read True; non-trivial = distinct (instance, assignment) presented; evaluations = '
         'assignments presented')
 ASSUMPTIONS = ['SPA-STL blocking-pair definition as worded in C05/C06 (undefined worst assignee => clause false)']
-SHAPES = ['dense', 'dense', 'zero_caps', 'zero_caps', 'tight_lecturer', 'one_lecturer', 'all_tied', 'no_ties', 'long_lists']
+SHAPES = ['dense', 'dense', 'zero_caps', 'zero_caps', 'tight_lecturer', 'one_lecturer', 'all_tied', 'no_ties', 'long_lists', 'wide', 'tall']
 
 
 def plan(tier):
@@ -42,6 +42,12 @@ def run_case(cs, ctx):
     from matchingproblems.solver import Solver
     medium = rng.random() < 0.15
     spec = sp.make_spec(rng, shape=rng.choice(SHAPES), **(dict(max_s=6, max_p=4, max_l=3, min_s=4) if medium else {}))
+    if cs % 40 == 3:
+        spec = sp.make_big_spec(rng)          # two-digit ids on both sides
+        ctx.cov('big_two_digit_ids_both_sides')
+    elif cs % 40 == 7:
+        spec = sp.make_huge_id_spec(rng)      # three-digit project and lecturer ids
+        ctx.cov('three_digit_ids')
     text = sp.render(spec, rng=rng, second_side=True, noise=True)
     path = en.write_file(ctx.workdir, text)
     case.update({'spec': spec, 'file': text})
@@ -52,9 +58,24 @@ def run_case(cs, ctx):
         return
     model = s.model
     inst = rm.Inst(spec, True)
-    ms = rm.enumerate_assignments(inst)
-    if len(ms) > 600:
-        ms = rng.sample(ms, 300)
+    if inst.n_acceptable_assignments() > 200000:
+        # too many to enumerate: draw random quota-respecting assignments directly
+        ms = set()
+        for _ in range(400):
+            pcnt, lcnt, m = [0] * inst.np, [0] * inst.nl, []
+            for s_ in range(inst.ns):
+                opts_ = [p for p, _r in inst.acc[s_] if pcnt[p - 1] < inst.puq[p - 1] and lcnt[inst.plec[p - 1] - 1] < inst.luq[inst.plec[p - 1] - 1]]
+                p = rng.choice(opts_ + [0]) if opts_ and rng.random() < 0.85 else 0
+                if p:
+                    pcnt[p - 1] += 1
+                    lcnt[inst.plec[p - 1] - 1] += 1
+                m.append(p)
+            ms.add(tuple(m))
+        ms = sorted(ms)
+    else:
+        ms = rm.enumerate_assignments(inst)
+        if len(ms) > 600:
+            ms = rng.sample(ms, 300)
     nT = nF = 0
     for m in ms:
         lst = []
@@ -95,7 +116,6 @@ def run_case(cs, ctx):
         ctx.nontrivial(sp.shash([spec['st'], spec['puq'], spec['plec'], spec['luq'], spec['lec'], list(m)]))
     ctx.cov('verdict_True', nT)
     ctx.cov('verdict_False', nF)
-    pc, lc_ = [0] * inst.np, [0] * inst.nl
     if any(u == 0 for u in inst.puq):
         ctx.cov('instances_with_zero_capacity_project')
     if any(u == 0 for u in inst.luq):
@@ -118,7 +138,7 @@ def floors(m, tier):
         out.append('contract on Model.check_stability evaluated only %d times in its domain' % c.get('contract_evals_check_stability_in_domain', 0))
     if c.get('contract_evals_contract_errors', 0):
         out.append('%d internal contract errors' % c['contract_evals_contract_errors'])
-    for k in ('verdict_True', 'verdict_False', 'instances_with_zero_capacity_project', 'instances_with_zero_capacity_lecturer',
+    for k in ('big_two_digit_ids_both_sides', 'three_digit_ids', 'verdict_True', 'verdict_False', 'instances_with_zero_capacity_project', 'instances_with_zero_capacity_lecturer',
               '3a', '3b_in_Ml', '3b_pref', '3c', '3b_tie_not_strict', '3c_tie_not_strict', '3b_no_worst', '3c_no_worst'):
         if m['cover'].get(k, 0) == 0:
             out.append('class %s never observed' % k)
